@@ -271,6 +271,44 @@ def Img.fromVec (x : Img) (v : Vec) : Except Err Img :=
 
 def Img.nParams (x : Img) : Nat := x.asVec.length
 
+/-! ### the options of the image entry points: `as_vector(keep_channels=True)`, `from_vector(v, n_channels=k)` -/
+
+/-- `as_vector(keep_channels=True)`: the `(n_channels, -1)` array, one row per channel
+(`pixels.reshape([n_channels, -1])`, for a MaskedImage `masked_pixels().reshape([n_channels, -1])`) -/
+def Img.asVecKeep (x : Img) : List (List Rat) :=
+  match (rowOf x.cls).asVector with
+  | .MaskedImage => if allTrue x.mask then x.chans else x.chans.map (fun c => maskFilter c x.mask)
+  | _ => x.chans
+
+/-- `Image.from_vector(vector, n_channels=k)`: `vector.reshape((k,) + self.shape)` -/
+def imageFromVectorN (x : Img) (k : Nat) (v : Vec) : Except Err Img :=
+  if v.length = k * x.nPix then .ok { x with chans := chunks x.nPix k v } else .error .value
+
+/-- `MaskedImage.from_vector(vector, n_channels=k)`: `maskedFromVector` with `k` in the place of `n_channels` -/
+def maskedFromVectorN (x : Img) (k : Nat) (v : Vec) : Except Err Img :=
+  if allTrue x.mask then
+    if v.length = k * x.nPix then .ok { x with chans := chunks x.nPix k v } else .error .value
+  else if k = 0 then .error .value
+  else if v.length % k ≠ 0 then .error .value
+  else
+    let w := v.length / k
+    let rows := chunks w k v
+    if w = countTrue x.mask then
+      .ok { x with chans := rows.map (scatter 0 x.mask) }
+    else if w = 1 then
+      .ok { x with chans := rows.map (fun r => scatter 0 x.mask (List.replicate (countTrue x.mask) (r.headD 0))) }
+    else .error .value
+
+/-- `from_vector(v, n_channels=k)` through the table (`BooleanImage.from_vector` has no such parameter) -/
+def Img.fromVecN (x : Img) (k : Nat) (v : Vec) : Except Err Img :=
+  match (rowOf x.cls).fromVector with
+  | .Image => imageFromVectorN x k v
+  | .MaskedImage => maskedFromVectorN x k v
+  | _ => .error .other
+
+/-- the receiver with `k` blank channels: `from_vector(v, n_channels=k)` only looks at shape, mask and landmarks -/
+def Img.blank (x : Img) (k : Nat) : Img := { x with chans := List.replicate k (List.replicate x.nPix 0) }
+
 /-! ## homogeneous transforms
 
 `h` = the homogeneous matrix as rows; `[]` stands for Python's `None`.  Alignment classes
@@ -509,6 +547,21 @@ def Xf.fvi (V : Variant) (x : Xf) (v : Vec) : Except Err Xf :=
   | .Rotation => rotationFvi r x v
   | _ => .error .other
 
+/-- the receiver after a *failed* `_from_vector_inplace` (only observable through the deprecated public
+`from_vector_inplace`; `from_vector` discards the half-updated copy): `AlignmentAffine._set_h_matrix` stores
+the new matrix and only then re-syncs the target, so when the re-sync raises (a 12-vector on a 2-D alignment,
+a 6-vector on a 3-D one) the new matrix stays; every other supplier raises before it touches the object -/
+def Xf.afterFailedFvi (x : Xf) (v : Vec) : Xf :=
+  let r := rowOf x.cls
+  match r.fvi, r.setH with
+  | .Affine, .AlignmentAffine =>
+    (match v with
+     | [p1, p2, p3, p4, p5, p6] => { x with h := [[1 + p1, p3, p5], [p2, 1 + p4, p6], [0, 0, 1]] }
+     | [p1, p2, p3, p4, p5, p6, p7, p8, p9, p10, p11, p12] =>
+       { x with h := [[1 + p1, p4, p7, p10], [p2, 1 + p5, p8, p11], [p3, p6, 1 + p9, p12], [0, 0, 0, 1]] }
+     | _ => x)
+  | _, _ => x
+
 /-- `Homogeneous.from_vector`: `self.copy()` then `_from_vector_inplace` -/
 def Xf.fromVec (V : Variant) (x : Xf) (v : Vec) : Except Err Xf :=
   match (rowOf x.cls).fromVector with
@@ -556,24 +609,125 @@ def Xf.wf (x : Xf) : Bool :=
      | .ok t => t == x.tgt
      | .error _ => false))
 
-/-! ## receiver purity: `from_vector` = `copy()` + in-place update, on a heap
+/-! ## the deprecated public mutator `from_vector_inplace`
+
+`Vectorizable.from_vector_inplace(v)` warns and calls `self._from_vector_inplace(v)`: the receiver itself is
+updated.  For the transforms and the shapes that is the supplier already modelled above (`Xf.fvi`,
+`pointCloudFvi`; `TexturedTriMesh` has no in-place override, so it keeps its landmarks even as coded); for the
+images the in-place suppliers differ from the `from_vector` rebuilders and are modelled here. -/
+
+/-- `_from_vector_inplace` of a shape, through the table -/
+def Shape.fvi (V : Variant) (s : Shape) (v : Vec) : Except Err Shape :=
+  match (rowOf s.cls).fvi with
+  | .PointCloud => pointCloudFvi V s v
+  | _ => .error .other
+
+/-- `Image._from_vector_inplace`: `self.pixels = vector.reshape(self.pixels.shape)` (copied).  BooleanImage
+inherits it: nothing coerces the values to bool. -/
+def imageFvi (x : Img) (v : Vec) : Except Err Img :=
+  if v.length = x.nCh * x.nPix then .ok { x with chans := chunks x.nPix x.nCh v } else .error .value
+
+/-- `old[mask] = xs` on one channel: the pixels under the mask take consecutive values of `xs`, the others
+keep what they had -/
+def overlay {α} : List Bool → List α → List α → List α
+  | true :: ms, _ :: os, x :: xs => x :: overlay ms os xs
+  | true :: ms, o :: os, [] => o :: overlay ms os []
+  | false :: ms, o :: os, xs => o :: overlay ms os xs
+  | _, _, _ => []
+
+/-- numpy broadcasting of a `(c, 1)` array to `(c, n)` -/
+def broadcastRows (n : Nat) (rows : List (List Rat)) : List (List Rat) :=
+  rows.map (fun r => List.replicate n (r.headD 0))
+
+/-- `MaskedImage._from_vector_inplace`: `self._set_masked_pixels(vector.reshape((n_channels, -1)))`:
+all-true mask → reshape to the image and rebind; otherwise `self.pixels[..., mask] = rows` in place -/
+def maskedFvi (x : Img) (v : Vec) : Except Err Img :=
+  if x.nCh = 0 then .error .value
+  else if v.length % x.nCh ≠ 0 then .error .value
+  else if allTrue x.mask then
+    if v.length = x.nCh * x.nPix then .ok { x with chans := chunks x.nPix x.nCh v } else .error .value
+  else
+    let k := v.length / x.nCh
+    let rows := chunks k x.nCh v
+    if k = countTrue x.mask then
+      .ok { x with chans := List.zipWith (overlay x.mask) x.chans rows }
+    else if k = 1 then
+      let bc := broadcastRows (countTrue x.mask) rows
+      .ok { x with chans := List.zipWith (overlay x.mask) x.chans bc }
+    else .error .value
+
+/-- `_from_vector_inplace` of an image, through the table -/
+def Img.fvi (x : Img) (v : Vec) : Except Err Img :=
+  match (rowOf x.cls).fvi with
+  | .Image => imageFvi x v
+  | .MaskedImage => maskedFvi x v
+  | _ => .error .other
+
+/-! ## dtypes: whose dtype the rebuilt array has
+
+numpy decides the dtype of `from_vector(v)`'s array by how the supplier builds it: a reshape of the vector
+(`vec`), a fresh `np.eye` (`float64`), an assignment into an existing buffer (`own`), a coercion (`bool`). -/
+
+inductive Dt | bool | uint8 | int64 | float32 | float64 | other
+  deriving DecidableEq, Repr
+
+/-- dtype of the receiver's array after `_from_vector_inplace`; `full` = the mask is all true (MaskedImage) -/
+def fviDtype (s : Sup) (full : Bool) (own vec : Dt) : Dt :=
+  match s with
+  | .PointCloud | .Image | .Homogeneous => vec
+  | .MaskedImage => if full then vec else own
+  | .Affine | .Similarity | .AlignmentSimilarity => .float64
+  | .Translation | .AlignmentTranslation | .UniformScale | .AlignmentUniformScale
+  | .NonUniformScale | .Rotation => own
+  | _ => .other
+
+/-- dtype of the array (points / pixels / h_matrix) of `from_vector(v)`, through the table -/
+def fromVecDtype (r : Row) (full : Bool) (own vec : Dt) : Dt :=
+  match r.fromVector with
+  | .BooleanImage => .bool
+  | .Image | .MaskedImage | .TexturedTriMesh => vec
+  | .Vectorizable | .Homogeneous => fviDtype r.fvi full own vec
+  | _ => .other
+
+/-- dtype of `_as_vector()` given the dtype of the object's array -/
+def asVecDtype (r : Row) (own : Dt) : Dt :=
+  match r.asVector with
+  | .PointCloud | .Image | .MaskedImage | .Homogeneous | .Translation | .UniformScale | .NonUniformScale => own
+  | .Affine | .Similarity | .Rotation => .float64
+  | _ => .other
+
+/-! ## receiver purity and receiver mutation, on a heap
 
 The value model above cannot express "the receiver is unchanged" (it is a function).  What can go
 wrong in the code is aliasing: `_from_vector_inplace` of some suppliers writes *into* an existing
 buffer (`h_matrix[:-1, -1] = p`, `np.fill_diagonal(h_matrix, p)`, `pixels[..., mask] = …`) and
-`HomogFamilyAlignment.copy` is deliberately shallow for everything but `_h_matrix`.  The table
-below records, per supplier, the buffers written in place and, per `copy` supplier, the buffers
-that are fresh in the copy; `rowPure` is the resulting per-class obligation and
-`from_vector_pure_heap` (Props/C05.lean) is the heap theorem it feeds. -/
+`HomogFamilyAlignment.copy` is deliberately shallow for everything but `_h_matrix`.  The tables
+below record, per supplier, the buffers written in place and the attributes rebound and, per `copy`
+supplier, the buffers that are fresh in the copy.  They are not taken on trust: `expectedEffects`
+assembles them per class through the method-resolution table and `GenProps/C05.lean` proves that
+it equals `Generated.effects`, measured on instrumented live objects on every run
+(harness/extract_c05.py).  `rowPure` is the resulting per-class obligation; `from_vector_pure_heap`
+and the program theorems of Props/C05.lean are the heap theorems it feeds. -/
 
-inductive Buf | points | pixels | hMatrix | target
+/-- the array buffers of an object: coordinates, pixels, homogeneous matrix, the point arrays of an
+alignment's target and source, the mask of a masked image, and `carried` = every other array the
+object reaches (connectivity, colours, texture, tcoords, label masks, landmarks) -/
+inductive Buf | points | pixels | hMatrix | target | source | mask | carried
   deriving DecidableEq, Repr
 
-def allBufs : List Buf := [.points, .pixels, .hMatrix, .target]
+def allBufs : List Buf := [.points, .pixels, .hMatrix, .target, .source, .mask, .carried]
 
-/-- buffers `_from_vector_inplace` of this supplier writes into in place (attribute rebinding
-such as `self.points = …`, `self.pixels = …`, `self._h_matrix = …`, `self._target = …` is not a
-write); `none` = supplier not modelled -/
+/-- the buffers an object of this class holds -/
+def bufsOf (c : Cls) : List Buf :=
+  if isShapeCls c then [.points, .carried]
+  else if c == .MaskedImage then [.pixels, .mask, .carried]
+  else if c == .Image || c == .BooleanImage then [.pixels, .carried]
+  else if isAlignCls c then [.hMatrix, .target, .source]
+  else if c == .unknown then []
+  else [.hMatrix]
+
+/-- buffers `_from_vector_inplace` of this supplier writes into in place (some branch of it does);
+`none` = supplier not modelled -/
 def writesInto : Sup → Option (List Buf)
   | .PointCloud | .Image => some []
   | .MaskedImage => some [.pixels]
@@ -581,6 +735,28 @@ def writesInto : Sup → Option (List Buf)
   | .Translation | .AlignmentTranslation | .UniformScale | .AlignmentUniformScale
   | .NonUniformScale | .Rotation => some [.hMatrix]
   | _ => none
+
+/-- attributes `_from_vector_inplace` of this supplier rebinds to a new array (`self.points = …`,
+`self.pixels = …`, `self._set_h_matrix(…)`, `_sync_target_from_state()`), not counting what the
+`_set_h_matrix` / `set_rotation_matrix` it calls adds (see `rowRebinds`) -/
+def rebindsOf : Sup → List Buf
+  | .PointCloud => [.points]
+  | .Image | .MaskedImage => [.pixels]
+  | .Homogeneous | .Affine | .Similarity => [.hMatrix]
+  | .AlignmentSimilarity => [.hMatrix, .target]
+  | .AlignmentTranslation | .AlignmentUniformScale => [.target]
+  | _ => []
+
+def callsSetH : Sup → Bool
+  | .Homogeneous | .Affine | .Similarity | .AlignmentSimilarity => true
+  | _ => false
+
+/-- everything the class's `_from_vector_inplace` rebinds: `AlignmentAffine._set_h_matrix` and
+`AlignmentRotation.set_rotation_matrix` re-sync (rebind) the target -/
+def rowRebinds (r : Row) : List Buf :=
+  rebindsOf r.fvi ++
+  (if callsSetH r.fvi && r.setH == .AlignmentAffine then [.target] else []) ++
+  (if r.fvi == .Rotation && r.setRot == .AlignmentRotation then [.target] else [])
 
 /-- buffers that are fresh (deep-copied) in the result of this supplier's `copy` -/
 def copyFresh : Sup → Buf → Bool
@@ -601,25 +777,73 @@ def rowPure (r : Row) : Bool :=
      | some ws => ws.all (copyFresh r.copy)
      | none => false))
 
+/-- what is measured on the live objects of one class (all lists in `allBufs` order) -/
+structure EffRow where
+  cls : Cls
+  has : List Buf          -- the buffers the specimens hold
+  fresh : List Buf        -- not sharing memory with the original after `copy()`
+  fviWrites : List Buf    -- old array changed by `_from_vector_inplace`
+  fviRebinds : List Buf   -- attribute refers to a new array after `_from_vector_inplace`
+  fvWrites : List Buf     -- receiver array changed by `from_vector` (purity: must be empty)
+  fvShares : List Buf     -- arrays of the result of `from_vector` sharing memory with the receiver
+  deriving DecidableEq, Repr
+
+/-- the same row, predicted by the model from the method-resolution table -/
+def effOfRow (r : Row) : EffRow :=
+  let has := bufsOf r.cls
+  let rb := rowRebinds r
+  { cls := r.cls
+    has := has
+    fresh := has.filter (copyFresh r.copy)
+    fviWrites := has.filter (fun b => ((writesInto r.fvi).getD allBufs).contains b)
+    fviRebinds := has.filter (fun b => rb.contains b)
+    fvWrites := []
+    fvShares := if isRebuilder r.fromVector then []
+                else has.filter (fun b => !copyFresh r.copy b && !rb.contains b) }
+
+def expectedEffects : List EffRow := expectedDispatch.map effOfRow
+
+/-- the buffers some `_from_vector_inplace` writes in place -/
+def writable (b : Buf) : Bool :=
+  expectedDispatch.any (fun r => ((writesInto r.fvi).getD allBufs).contains b)
+
+/-- every in-place write goes to a writable buffer (by definition) and the class's `copy` makes every
+writable buffer fresh: what keeps in-place updates of one object invisible through every other -/
+def rowAdm (r : Row) : Bool :=
+  ((writesInto r.fvi).getD allBufs).all writable &&
+  (bufsOf r.cls).all (fun b => !writable b || copyFresh r.copy b || isRebuilder r.fromVector)
+
 structure Heap where
   cell : Nat → List Rat
   next : Nat
 
 abbrev Obj := Buf → Nat
 
+def nBufs : Nat := 7
+
 def bufIndex : Buf → Nat
-  | .points => 0 | .pixels => 1 | .hMatrix => 2 | .target => 3
+  | .points => 0 | .pixels => 1 | .hMatrix => 2 | .target => 3 | .source => 4 | .mask => 5 | .carried => 6
+
+def bufAt : Nat → Option Buf
+  | 0 => some .points | 1 => some .pixels | 2 => some .hMatrix | 3 => some .target | 4 => some .source
+  | 5 => some .mask | 6 => some .carried | _ => none
 
 /-- `copy()`: a new cell with the same content for every fresh buffer (cell `next + index`),
 the same cell otherwise -/
 def heapCopy (fresh : Buf → Bool) (H : Heap) (o : Obj) : Heap × Obj :=
   (⟨fun a => if a < H.next then H.cell a
-      else if a = H.next then H.cell (o .points)
-      else if a = H.next + 1 then H.cell (o .pixels)
-      else if a = H.next + 2 then H.cell (o .hMatrix)
-      else if a = H.next + 3 then H.cell (o .target)
-      else [], H.next + 4⟩,
+      else match bufAt (a - H.next) with
+        | some b => H.cell (o b)
+        | none => [], H.next + nBufs⟩,
    fun b => if fresh b then H.next + bufIndex b else o b)
+
+/-- attribute rebinding: the object refers to a new cell holding the new value; the old cell is left alone -/
+def heapRebind (rebinds : List Buf) (new : Buf → List Rat) (H : Heap) (o : Obj) : Heap × Obj :=
+  (⟨fun a => if a < H.next then H.cell a
+      else match bufAt (a - H.next) with
+        | some b => if rebinds.contains b then new b else []
+        | none => [], H.next + nBufs⟩,
+   fun b => if rebinds.contains b then H.next + bufIndex b else o b)
 
 def heapWrite (H : Heap) (a : Nat) (v : List Rat) : Heap :=
   ⟨fun x => if x = a then v else H.cell x, H.next⟩
@@ -627,5 +851,53 @@ def heapWrite (H : Heap) (a : Nat) (v : List Rat) : Heap :=
 /-- the in-place update: one write per buffer in `writes`, through the object's own references -/
 def heapUpdate (writes : List Buf) (new : Buf → List Rat) (H : Heap) (o : Obj) : Heap :=
   writes.foldl (fun H b => heapWrite H (o b) (new b)) H
+
+/-! ### programs of `from_vector` / `from_vector_inplace` calls on a population of objects -/
+
+/-- one call: `objs[recv].from_vector(v)` (`inplace = false`: the resolved `copy()`, then the in-place update
+on the copy, which becomes a new object) or `objs[recv].from_vector_inplace(v)` (`inplace = true`: the update
+on the receiver itself).  `new` = the new contents, `rebinds` / `writes` = how the supplier installs them. -/
+structure Step where
+  recv : Nat
+  inplace : Bool
+  fresh : Buf → Bool
+  rebinds : List Buf
+  writes : List Buf
+  new : Buf → List Rat
+
+structure World where
+  heap : Heap
+  objs : Nat → Obj
+  n : Nat
+
+/-- heap and references the update works on: the receiver itself, or its copy -/
+def Step.base (s : Step) (W : World) : Heap × Obj :=
+  if s.inplace then (W.heap, W.objs s.recv) else heapCopy s.fresh W.heap (W.objs s.recv)
+
+def Step.rebound (s : Step) (W : World) : Heap × Obj :=
+  heapRebind s.rebinds s.new (s.base W).1 (s.base W).2
+
+def World.exec (W : World) (s : Step) : World :=
+  if s.recv < W.n then
+    let H := heapUpdate s.writes s.new (s.rebound W).1 (s.rebound W).2
+    if s.inplace then ⟨H, fun k => if k = s.recv then (s.rebound W).2 else W.objs k, W.n⟩
+    else ⟨H, fun k => if k = W.n then (s.rebound W).2 else W.objs k, W.n + 1⟩
+  else W
+
+def World.run (W : World) : List Step → World
+  | [] => W
+  | s :: ss => (W.exec s).run ss
+
+/-- what object `i` holds in buffer `b` -/
+def World.val (W : World) (i : Nat) (b : Buf) : List Rat := W.heap.cell (W.objs i b)
+
+/-- the step a class's row prescribes for `from_vector` (`inplace = false`) or `from_vector_inplace`; a buffer
+the class does not hold is an empty placeholder, one per object -/
+def stepOfRow (r : Row) (recv : Nat) (inplace : Bool) (new : Buf → List Rat) : Step :=
+  if isRebuilder r.fromVector && !inplace then
+    ⟨recv, false, fun _ => true, bufsOf r.cls, [], new⟩     -- constructor rebuild: every attribute is a new array
+  else
+    ⟨recv, inplace, fun b => copyFresh r.copy b || !(bufsOf r.cls).contains b, rowRebinds r,
+      (writesInto r.fvi).getD allBufs, new⟩
 
 end MenpoModel.C05
